@@ -8,7 +8,7 @@ import tempfile
 import numpy
 
 from .. import fixtures
-from ..core import digest
+from ..core import digest, scratch_dir
 from . import c12
 
 META = {
@@ -209,7 +209,7 @@ def do_op(ctx, op, f, obs):
 
 
 def ex_history(ctx, fc, cfg, ops, fresh_cache=None):
-    tmp = tempfile.mkdtemp(prefix="c13-", dir=os.environ.get("VERIF_TMP", "/var/tmp"))
+    tmp = scratch_dir("c13-")
     try:
         _run_history(ctx, fc, cfg, ops, tmp, fresh_cache if fresh_cache is not None else {})
     finally:
